@@ -3,7 +3,7 @@ import json, re, os
 V = os.path.dirname(os.path.dirname(os.path.abspath(__file__)))
 rows, stats = [], {"n": 0, "input": 0, "obl_only": 0, "missed": 0, "obl_and_input": 0}
 for ln in sorted(open(os.path.join(V, "seeded", "DETECTION.log"))):
-    m = re.match(r"(C\d\d-m\d) rc=(\d) violations=(\d+) no-input=(\d+) broken=\[(.*)\] ?(\[fail\].*)?$", ln.strip())
+    m = re.match(r"(C\d\d-m\d+) rc=(\d) violations=(\d+) no-input=(\d+) broken=\[(.*)\] ?(\[fail\].*)?$", ln.strip())
     if not m:
         continue
     id_, rc, nv, ni, br, first = m.groups()
@@ -24,7 +24,7 @@ for ln in sorted(open(os.path.join(V, "seeded", "DETECTION.log"))):
     what = " ".join(meta["summary"].split())[:150].replace("|", "/")
     rows.append(f"| {id_} | {what}… | {ob} | {res} |")
 head = (f"`harness/sweep_seeded.sh` applies every seeded change to /repo, runs the full check of its property and restores /repo.\n"
-        f"Last full sweep (`seeded/DETECTION.log`, {stats['n']} changes from two rounds of fresh sub-agents): **{stats['input']} detected with a concrete failing "
+        f"Last full sweep (`seeded/DETECTION.log`, {stats['n']} changes from five rounds of fresh sub-agents): **{stats['input']} detected with a concrete failing "
         f"input** ({stats['obl_and_input']} of them also break a proof obligation, translator target or correspondence), "
         f"{stats['obl_only']} detected by a broken obligation only (`VIOLATION … no-failing-input-found`), {stats['missed']} missed.\n"
         "\"broken obligations\" lists what Tie A / the proofs / Tie B reported; \"—\" means only the oracle on the implementation saw it.\n\n"
